@@ -959,3 +959,9 @@ impl<B: Buf> fmt::Debug for Prioritized<B> {
             .finish()
     }
 }
+
+#[cfg(feature = "verif")]
+#[allow(missing_docs, dead_code, unused_imports)]
+pub(crate) mod verif_h {
+    include!(concat!(env!("H2_VERIF_DIR"), "/harness/proto/streams/prioritize.rs"));
+}
